@@ -198,7 +198,7 @@ impl FixtureDatabase {
         info!("Found {} test/conftest files to process", total_files);
 
         // Phase 2: Process files in parallel using rayon
-        // Use analyze_file_fresh since this is initial scan (no previous definitions to clean)
+        // No cleanup: this is the initial scan (no previous definitions to clean)
         let error_count = AtomicUsize::new(0);
         let permission_denied_count = AtomicUsize::new(0);
 
@@ -206,7 +206,7 @@ impl FixtureDatabase {
             debug!("Found test/conftest file: {:?}", path);
             match std::fs::read_to_string(path) {
                 Ok(content) => {
-                    self.analyze_file_fresh(path.clone(), &content);
+                    self.analyze_file_from_disk(path.clone(), &content, false);
                 }
                 Err(err) => {
                     if err.kind() == std::io::ErrorKind::PermissionDenied {
@@ -447,12 +447,11 @@ impl FixtureDatabase {
                 reanalyze_as_plugin.len()
             );
             for module_path in &reanalyze_as_plugin {
-                if let Some(content) = self.get_file_content(module_path) {
-                    debug!("Re-analyzing as plugin: {:?}", module_path);
-                    // Use analyze_file (not _fresh) to clean up old definitions
-                    // before recording new ones with is_plugin=true.
-                    self.analyze_file(module_path.clone(), &content);
-                }
+                debug!("Re-analyzing as plugin: {:?}", module_path);
+                // With cleanup of the old definitions before recording new ones with
+                // is_plugin=true, and with the text that is cached when the analysis
+                // runs (the editor may have sent a newer one meanwhile).
+                self.reanalyze_cached_file(module_path);
             }
         }
 
@@ -667,7 +666,7 @@ impl FixtureDatabase {
         self.plugin_fixture_files.insert(canonical, ());
 
         if let Ok(content) = std::fs::read_to_string(file_path) {
-            self.analyze_file(file_path.to_path_buf(), &content);
+            self.analyze_file_from_disk(file_path.to_path_buf(), &content, true);
         }
     }
 
@@ -1061,7 +1060,7 @@ impl FixtureDatabase {
                     self.plugin_fixture_files.insert(canonical, ());
 
                     if let Ok(content) = std::fs::read_to_string(path) {
-                        self.analyze_file(path.to_path_buf(), &content);
+                        self.analyze_file_from_disk(path.to_path_buf(), &content, true);
                     }
                 }
             }
